@@ -58,6 +58,7 @@ func genCase6(t *rapid.T) Case6 {
 		if rapid.IntRange(0, 9).Draw(t, "unusable") == 0 {
 			l.State = rapid.SampledFrom([]int{stPending, stRetired, stQualified}).Draw(t, "state")
 		}
+		l.Extra = genExtraStanza(t)
 		if rapid.IntRange(0, 9).Draw(t, "iv") == 0 {
 			sh := ivShapes[rapid.IntRange(0, len(ivShapes)-1).Draw(t, "ivshape")]
 			l.HasIv, l.IvStart, l.IvEnd = true, sh[0], sh[1]
@@ -237,6 +238,7 @@ func check6(t *testing.T, c Case6) harness.Verdict {
 	nd := policyNeed(c.Policy, c.Life)
 	sort.Slice(out.Refreshes, func(i, j int) bool { return out.Refreshes[i].Start < out.Refreshes[j].Start })
 	v.Class(fmt.Sprintf("refreshes:%d", len(out.Refreshes)), fmt.Sprintf("submissions:%d", len(out.Subs)))
+	v.Class(stanzaClasses(c.List)...)
 	phaseOf := func(p int) []int {
 		if p >= len(c.Phases) {
 			p = len(c.Phases) - 1
@@ -322,7 +324,7 @@ func check6(t *testing.T, c Case6) harness.Verdict {
 			}
 			_, sig := eligible(l, root, known)
 			v.Failf(sig, "rootchange submission %d (chain %d, started %v): log %d was contacted at %v although it is not compatible with the root sets installed at that instant (state %s, interval %v [%d,%d), accepted roots mask %d known=%v, chain root %d; refreshes %v; phases %v)",
-				k, chain, o.Start, call.Log, call.Start, stateNames[l.State], l.HasIv, l.IvStart, l.IvEnd, l.Roots, known, root, out.Refreshes, c.Phases)
+				k, chain, o.Start, call.Log, call.Start, stateNames[effState(l)], l.HasIv, l.IvStart, l.IvEnd, l.Roots, known, root, out.Refreshes, c.Phases)
 		}
 		beh := make([]Beh, n)
 		for i := range beh {
